@@ -10,7 +10,7 @@ THEOREMS = ["VpnCloud.Proofs.C15." + n for n in ("interval_safe", "keepalive_def
             "VpnCloud.Proofs.C15More." + n for n in ("housekeep_schedules_safe", "housekeep_delay_safe_for_peer", "housekeep_keeps_schedule", "housekeep_interval_no_panic",
                 "announced_info", "announce_reaches_every_peer", "announced_timeout_decodes", "peers_after_message", "refresh_sets_expiry", "message_keeps_other_peers",
                 "data_does_not_refresh", "healthy_never_expires", "tinv_after_announcement", "publish_le_own", "timeout_zero_expires", "advertised_above_own_expires",
-                "late_first_announcement_expires", "silent_removed", "silent_removed_node", "expired_peer_redialled", "handshake_sets_expiry", "handshake_keeps_schedule",
+                "second_disjunct_needed", "tinv_after_join", "joined_peer_never_expires", "join_announces_next_tick", "handshake_pulls_schedule", "handshake_schedule", "datagram_never_delays_schedule", "plain_datagram_keeps_schedule", "new_peer_announced_next_tick", "new_peer_delay_safe", "silent_removed", "silent_removed_node", "expired_peer_redialled", "handshake_sets_expiry",
                 "reconnect_forever", "housekeep_reconnect_forever", "reconnect_dials", "housekeep_dials")]
 THEOREMS = THEOREMS + ["VpnCloud.Proofs.GuardsUsed." + n for n in ('peerExpired_boundary', 'announceDue_boundary', 'ownResetDue_boundary', 'reconnect_at', 'reconnect_silent', 'reconnectNotDue_boundary', 'backoffDoubles_boundary', 'backoffCapped_boundary')]
 RULE = ("suite node: announcement interval through a real node's housekeeping for own settings (peer timeout, keepalive) from a grid incl. 0, 1, 59, 60, 119, 120, 121, 300, 65535 x advertised "
